@@ -1031,6 +1031,12 @@ func (pc *pCtx) p1Context(s *pSite) {
 					continue
 				}
 				name := fmt.Sprintf("P1/%s/%s/%s.%s", s.Name, role, recv, m)
+				props := props
+				if kind == "subscribe" || kind == "subscribe-noctx" {
+					// the context handed upstream is also how a cancellation reaches the context-aware sources (C14) and
+					// stops the time-driven ones (C16)
+					props = []string{"C09", "C14", "C16"}
+				}
 				if kind == "emit-noctx" || kind == "subscribe-noctx" {
 					// the context-less method substitutes context.Background(): only acceptable in context-less sites
 					ok := s.SubCtx == nil
